@@ -135,6 +135,18 @@ def check_case(rep, c, rng, systems, swap=False):
     Kd = rd.K
     if not (isinstance(Kd, dict) and abs(Kd["a"].value - 2.0) < 1e-12 and Kd["b"] is None):
         rep.violation("split", "reaction:equilibrium-constant-per-environment", dict(detail, got=str(Kd)))
+    # a key may name several environments, separated by commas with any blanks around them
+    key = rng.choice(["a,b", "a, b", " a ,b ", "a , b"])
+    rg = Reaction(texts[0], kf={key: 4.0, "default": 1.0}, kr={key: 2.0, "c": 8.0})
+    Kg = rg.K
+    fg, bg = rg.split()
+    okg = (isinstance(Kg, dict) and set(Kg) >= {"a", "b"} and all(k == k.strip() for k in Kg)
+           and abs(Kg["a"].value - 2.0) < 1e-12 and abs(Kg["b"].value - 2.0) < 1e-12
+           and isinstance(fg.kf, dict) and set(fg.kf) == set(rg.kf) and all(k == k.strip() for k in rg.kf)
+           and rg.kf["b"].value == 4.0 and bg.kf["b"].value == 2.0)
+    if not okg:
+        rep.violation("split", "reaction:grouped-environment-key", dict(detail, key=key, K=str({k: str(v) for k, v in Kg.items()}) if isinstance(Kg, dict) else str(Kg),
+                                                                       kf_keys=sorted(rg.kf) if isinstance(rg.kf, dict) else None))
 
 
 def network_checks(rep, rng):
